@@ -331,6 +331,7 @@ def run_sock_check(prop, tier, seed):
         impl = [re.sub(r"\|N:[0-9,]*", "", o) for o in impl]       # per-op receive counts: judged, not modelled
         mcases = [xw_as_model_case(c, o) for c, o in zip(cases, impl)]
         model = common.run_model("sock", mcases)
+        common.kernel_crosscheck(rep, "sock", mcases, 150 if thorough else 60)
         for i, c in enumerate(cases):
             if c.startswith("XW"):
                 impl[i], model[i] = xw_views(c, impl[i], model[i])
